@@ -78,6 +78,10 @@ DATA_KINDS = {
     'unsupported-dtype': ('f64', True),
     'undecodable-object': ('str', True),
     'unknown-codec-column': ('str', True),
+    # the same refusal for masked (nullable extension) dtypes: pd.NA in an
+    # Int64 / boolean column of a dataset whose column is REQUIRED
+    'na-in-required-int': ('i64', False),
+    'na-in-required-bool': ('bool', False),
 }
 SHAPE_KINDS = ('columns-missing', 'columns-extra', 'column-renamed',
                'non-text-column-name', 'duplicate-column-name')
@@ -87,6 +91,8 @@ REPLACE_DATA_KINDS = ('none-in-required', 'int-encoding-over-text',
 READ_KINDS = (
     ('unknown-column-in-columns', 0), ('unknown-column-in-columns', 1),
     ('unknown-column-in-columns', 2),
+    ('unknown-column-in-columns-with-dtypes', 0),
+    ('unknown-column-in-columns-with-dtypes', 2),
     ('unknown-column-in-filters-flat', 0),
     ('unknown-column-in-filters-flat', 1),
     ('unknown-column-in-filters-or-groups', 0),
@@ -211,8 +217,9 @@ def generate(seed, idx, tier):
         return base
     # chains
     state = rng.choice(STATES)
-    victim = rng.choice(('str', 'str', 'i64', 'f64'))
-    strict = victim == 'str' and rng.random() < 0.4
+    victim = rng.choice(('str', 'str', 'i64', 'f64', 'bool'))
+    strict = (victim == 'str' and rng.random() < 0.4) or \
+        (victim in ('i64', 'bool') and rng.random() < 0.5)
     pool = [c for c in cells if c['state'] == state and c['mode'] not in
             ('replace',) and _victim_of(c) in (None, (victim, not strict))]
     steps = []
@@ -231,7 +238,10 @@ def generate(seed, idx, tier):
                 # through the library's default open/mkdirs: state the
                 # library keeps about a local path between calls is only
                 # reachable there
-                local=rng.random() < 0.15)
+                local=rng.random() < 0.15,
+                # one handle kept open for the whole chain: every
+                # write_row_groups step (valid or refused) goes through it
+                long_handle=rng.random() < 0.35)
     return base
 
 
@@ -251,6 +261,9 @@ def good_col(vtype, n, rng):
     if vtype == 'i64':
         return pd.Series(np.array([rng.randrange(-10 ** 9, 10 ** 9)
                                    for _ in range(n)], dtype='int64'))
+    if vtype == 'bool':
+        return pd.Series(np.array([rng.random() < 0.5 for _ in range(n)],
+                                  dtype=bool))
     return pd.Series(np.array([rng.uniform(-1e6, 1e6) for _ in range(n)],
                               dtype='float64'))
 
@@ -275,6 +288,14 @@ def poison(df, kind, col, row, vtype):
     if kind == 'none-in-required':
         s = df[name].astype('object').copy()
         s.iloc[row] = None
+        df[name] = s
+    elif kind == 'na-in-required-int':
+        s = df[name].astype('Int64').copy()
+        s.iloc[row] = pd.NA
+        df[name] = s
+    elif kind == 'na-in-required-bool':
+        s = df[name].astype('boolean').copy()
+        s.iloc[row] = pd.NA
         df[name] = s
     elif kind in ('text-into-int',):
         s = df[name].astype('object').copy()
@@ -366,16 +387,25 @@ def _execute(case, fs, path, res, cnt, probes, bump, violation, cells, state,
                        discard='base write failed: %s: %s'
                        % (type(e).__name__, e))
             return res
+        long_pf = [D.open_pf(path, fs)] if case.get('long_handle') else None
+        if long_pf:
+            bump(probes, 'chains_through_one_long_lived_handle')
         for si, step in enumerate(case['steps']):
             if 'valid' in step:
                 vr = prng.stream(step['vseed'], 'valid')
                 df = good_frame(vtype, 6, vr, partitioned)
                 try:
+                    through = long_pf[0] if long_pf and \
+                        step['valid'] == 'wrg-frame' else None
                     D.do_append(fs, path, df,
                                 {'entry': 'wrg' if step['valid'] ==
                                  'wrg-frame' else 'write',
                                  'codec': case['newcodec'], 'rgo': 3},
-                                scheme, parts)
+                                scheme, parts, pf=through)
+                    if long_pf and through is None:
+                        # the dataset changed behind the handle's back: a
+                        # caller re-opens it
+                        long_pf[0] = D.open_pf(path, fs)
                     after = D.read_all(fs, path)
                     bump(cnt, 'valid_ops_in_chains')
                     # exactly the new rows were added: nothing an earlier
@@ -405,7 +435,7 @@ def _execute(case, fs, path, res, cnt, probes, bump, violation, cells, state,
             seq0 = fs.seq
             files0 = fs.snapshot()[0]
             outcome, err = run_cell(fs, cell, path, scheme, parts, vtype,
-                                    rng, case)
+                                    rng, case, long_pf)
             res['evals'] += 1
             res['steps'] += fs.seq - seq0
             mutated = fs.seq - seq0
@@ -470,7 +500,7 @@ def _execute(case, fs, path, res, cnt, probes, bump, violation, cells, state,
     return res
 
 
-def run_cell(fs, cell, path, scheme, parts, vtype, rng, case):
+def run_cell(fs, cell, path, scheme, parts, vtype, rng, case, long_pf=None):
     """Perform the refused operation.  -> (outcome, exception|None)."""
     from fastparquet import ParquetFile, write
     mode, kind = cell['mode'], cell['kind']
@@ -487,6 +517,10 @@ def run_cell(fs, cell, path, scheme, parts, vtype, rng, case):
             if kind == 'unknown-column-in-columns':
                 names.insert(col if col < 2 else len(names), 'nope')
                 pf.to_pandas(columns=names)
+            elif kind == 'unknown-column-in-columns-with-dtypes':
+                names.insert(col if col < 2 else len(names), 'nope')
+                pf.to_pandas(columns=names,
+                             dtypes={COLS[0]: pf.dtypes[COLS[0]]})
             elif kind == 'unknown-column-in-filters-flat':
                 flt = [('v0', '!=', None)]
                 flt.insert(col, ('nope', '==', 1))
@@ -563,10 +597,10 @@ def run_cell(fs, cell, path, scheme, parts, vtype, rng, case):
                   append='overwrite', row_group_offsets=third,
                   compression=comp, **D.io(fs))
         elif mode == 'wrg-frame':
-            pf = D.open_pf(path, fs)
+            pf = long_pf[0] if long_pf else D.open_pf(path, fs)
             pf.write_row_groups(df, third, compression=comp, **D.io(fs))
         elif mode == 'wrg-iter':
-            pf = D.open_pf(path, fs)
+            pf = long_pf[0] if long_pf else D.open_pf(path, fs)
             chunks = [df.iloc[0:third], df.iloc[third:2 * third],
                       df.iloc[2 * third:]]
             pf.write_row_groups(iter(chunks), None, compression=comp,
